@@ -1112,6 +1112,16 @@ func main() {
 		}
 	}
 
+	// the four routing calls of the node manager: the mgr model replays each of them under one constant view of the
+	// nodes because the call holds the manager's mutex from its first statement to its return
+	for _, fn := range []string{"RequestBlock", "RequestHeaders", "RequestTxs", "SendTx"} {
+		if fd := root.funcs["NodeManager."+fn]; fd != nil {
+			fx.LockShapes["NodeManager."+fn] = lockShape(fd)
+		} else {
+			miss("NodeManager." + fn)
+		}
+	}
+
 	// fingerprints of every function of both packages (modelled or not; the runner picks)
 	for key, fd := range hdrs.funcs {
 		fx.Fingerprints["headers."+key] = fingerprint(hdrs, fd)
